@@ -23,7 +23,7 @@ import OFV.Lemmas.SizeMsg
 import OFV.Lemmas.SizeCex
 import OFV.Props.C06
 namespace OFV.Props.C06b
-open OFV OFV.Go OFV.Model
+open OFV OFV.Go OFV.Model InstrAux
 
 /-! ### plain OpenFlow actions -/
 
@@ -1027,8 +1027,10 @@ theorem statsReq_sizeMod (k : String) (v : V) : SizeMod (StatsReq.lenM k) (Stats
       rw [h2', h32]; omega
   · exact absurd h2 (by simp)
 
+/-- FlowStatsRequest: instance of `statsReq_sizeMod` -/
 theorem flowStatsRequest_sizeMod (v : V) : SizeMod FlowStatsRequest.lenM FlowStatsRequest.marshalM v :=
   statsReq_sizeMod _ v
+/-- AggregateStatsRequest: instance of `statsReq_sizeMod` -/
 theorem aggregateStatsRequest_sizeMod (v : V) : SizeMod AggregateStatsRequest.lenM AggregateStatsRequest.marshalM v :=
   statsReq_sizeMod _ v
 
@@ -1355,8 +1357,11 @@ theorem multipartReply_sizeMod (cl : MsgLenF) (cm : MsgMarF) (h t f p : V) (recs
 
 /-! ### the container kinds with the knot tied (children through `anyLenM` / `anyMarshalM`) -/
 
+/-- PacketOut with the knot tied -/
 theorem packetOut_size' (v : V) : SizeOK PacketOut.lenM PacketOut.marshalM v := packetOut_size _ _ v
+/-- BundleAdd with the knot tied -/
 theorem bundleAdd_size' (v : V) : SizeOK BundleAdd.lenM BundleAdd.marshalM v := bundleAdd_size _ _ v
+/-- VendorHeader with the knot tied: exact size whenever the payload's Len() is repeatable and leaves a non-nil payload -/
 theorem vendorHeader_size' (h vn t d : V) (hidem : LenIdem anyLenM d) (hnn : ∀ l d', anyLenM d = .ok (l, d') → d' ≠ .nil) :
     SizeOK VendorHeader.lenM VendorHeader.marshalM (.obj "VendorHeader" [h, vn, t, d]) :=
   vendorHeader_size _ _ h vn t d hidem hnn
@@ -1379,5 +1384,248 @@ theorem vendorHeader_size_nil (h vn t : V) :
     · revert h4; size_fill
     · revert h4; size_fill
   · exact absurd h4 (by simp)
+
+/-! ### children embedded intact: the `append`-built containers
+
+  "a container's encoding consists of its own header followed by the complete, unmodified encodings of its children in
+  order".  `mapM2 K.marshalM xs = .ok (bss, ys)` says: bss are the encodings MarshalBinary() returns for the children
+  xs, one after the other (each child encoded exactly once, ys = the children afterwards). -/
+
+/-- InstrActions: 4 header bytes (type, Length = Len()), 4 pad bytes, then exactly the encodings of the actions (as
+    Len() left them), complete and in order — nothing dropped, truncated or overwritten, for any list of actions -/
+theorem instrActions_embeds (v : V) (bs : Bytes) (v2 : V) (h2 : InstrActions.marshalM v = .ok (bs, v2)) :
+    ∃ t x pad as ls as1 hb bss as2, v = .obj "InstrActions" [.obj "InstrHeader" [t, x], .bytes pad, .list as] ∧
+      mapM2 Action.lenM as = .ok (ls, as1) ∧
+      InstrHeader.bytes (.obj "InstrHeader" [t, V.u16 (8 + sum16 ls)]) = .ok hb ∧ hb.length = 4 ∧
+      mapM2 Action.marshalM as1 = .ok (bss, as2) ∧ bs = hb ++ makeCopy 4 pad ++ bss.flatten := by
+  unfold InstrActions.marshalM at h2
+  obtain ⟨⟨l, v'⟩, hl, h3⟩ := bind_ok_inv _ _ _ h2
+  unfold InstrActions.lenM at hl
+  split at hl
+  · rename_i h p as
+    obtain ⟨⟨ls, as1⟩, hm, hl'⟩ := bind_ok_inv _ _ _ hl
+    cases hl'
+    simp only at h3
+    split at h3
+    · rename_i heq
+      cases heq
+      obtain ⟨hb, hhb, h4⟩ := bind_ok_inv _ _ _ h3
+      obtain ⟨⟨abs, as2, e⟩, hml, h5⟩ := bind_ok_inv _ _ _ h4
+      obtain ⟨bss, hmm, rfl⟩ := marshalList_eq_mapM2 _ _ _ _ _ _ (fun x _ => Action.marshalM_noErr x) hml
+      simp only at h5
+      split at h5
+      · exact absurd h5 (by simp)
+      · cases h5
+        exact ⟨_, _, _, as, ls, as1, hb, bss, as2, rfl, hm, hhb, InstrHeader.bytes_length _ _ hhb, hmm, rfl⟩
+    · exact absurd h3 (by simp)
+  · exact absurd hl (by simp)
+
+/-- Bucket: the 16 fixed bytes (Length = Len(), weight, watch port, watch group, 4 zero bytes), then exactly the
+    encodings of the actions, complete and in order.  (What is MISSING is the padding Len() counts when that sum is
+    not a multiple of 8: `bucket_size_counterexample`.) -/
+theorem bucket_embeds (v : V) (bs : Bytes) (v2 : V) (h2 : Bucket.marshalM v = .ok (bs, v2)) :
+    ∃ l0 wt wp wg p as ls as1 bss as2, v = .obj "Bucket" [l0, .num wt, .num wp, .num wg, p, .list as] ∧
+      mapM2 Action.lenM as = .ok (ls, as1) ∧ mapM2 Action.marshalM as1 = .ok (bss, as2) ∧
+      bs = be16 (round8 (16 + sum16 ls)) ++ be16 (n16 wt) ++ be32 (n32 wp) ++ be32 (n32 wg) ++ zeros 4 ++ bss.flatten := by
+  unfold Bucket.marshalM at h2
+  obtain ⟨⟨l, v'⟩, hl, h3⟩ := bind_ok_inv _ _ _ h2
+  unfold Bucket.lenM at hl
+  split at hl
+  · rename_i l0 w' wp' wg' p as
+    obtain ⟨⟨ls, as1⟩, hm, hl'⟩ := bind_ok_inv _ _ _ hl
+    cases hl'
+    simp only at h3
+    split at h3
+    · rename_i heq
+      cases heq
+      obtain ⟨⟨abs, as2, e⟩, hml, h4⟩ := bind_ok_inv _ _ _ h3
+      obtain ⟨bss, hmm, rfl⟩ := marshalList_eq_mapM2 _ _ _ _ _ _ (fun x _ => Action.marshalM_noErr x) hml
+      simp only at h4
+      split at h4
+      · exact absurd h4 (by simp)
+      · cases h4
+        exact ⟨l0, _, _, _, p, as, ls, as1, bss, as2, rfl, hm, hmm, rfl⟩
+    · exact absurd h3 (by simp)
+  · exact absurd hl (by simp)
+
+/-- FlowMod (commands other than the two deletes): 8 header bytes, 40 fixed bytes, the complete Match, then exactly
+    the encodings of the instructions, complete and in order -/
+theorem flowMod_embeds (v : V) (bs : Bytes) (v2 : V) (h2 : FlowMod.marshalM v = .ok (bs, v2)) :
+    ∃ h ck cm tid cmd it ht pr bid op og fl pad m is l hb mb m',
+      v = .obj "FlowMod" [h, ck, cm, tid, .num cmd, it, ht, pr, bid, op, og, fl, pad, m, .list is] ∧
+      Header.bytes (Header.setLength l h) = .ok hb ∧ hb.length = 8 ∧ Match.marshalM m = .ok (mb, m') ∧
+      ∃ fixed : Bytes, fixed.length = 40 ∧
+      ((cmd = Gen.openflow13.FC_DELETE ∨ cmd = Gen.openflow13.FC_DELETE_STRICT) ∧ bs = hb ++ fixed ++ mb ∨
+       ¬(cmd = Gen.openflow13.FC_DELETE ∨ cmd = Gen.openflow13.FC_DELETE_STRICT) ∧
+         ∃ ls is1 bss is2, mapM2 Instruction.lenM is = .ok (ls, is1) ∧ mapM2 Instruction.marshalM is1 = .ok (bss, is2) ∧
+           bs = hb ++ fixed ++ mb ++ bss.flatten) := by
+  unfold FlowMod.marshalM at h2
+  obtain ⟨⟨l, v'⟩, hl, h3⟩ := bind_ok_inv _ _ _ h2
+  unfold FlowMod.lenM at hl
+  split at hl
+  · rename_i h ck cm tid cmd it ht pr bid op og fl pad m is
+    obtain ⟨⟨ml, m1⟩, hml, hl2⟩ := bind_ok_inv _ _ _ hl
+    have em := Match.lenM_pure _ _ _ hml
+    subst em
+    simp only at hl2
+    split at hl2
+    · rename_i hd
+      cases hl2
+      simp only at h3
+      split at h3
+      · rename_i heq
+        cases heq
+        obtain ⟨hb, hhb, h4⟩ := bind_ok_inv _ _ _ h3
+        obtain ⟨⟨⟨mb, m''⟩, e0⟩, hmm, h5⟩ := bind_ok_inv _ _ _ h4
+        obtain ⟨hmm', rfl⟩ := catchErr_noErr _ _ _ _ (Match.marshalM_noErr _) hmm
+        simp only [hd, if_true, Res.bind_ok] at h5
+        split at h5
+        · exact absurd h5 (by simp)
+        · cases h5
+          refine ⟨_, _, _, _, cmd, _, _, _, _, _, _, _, _, _, is, _, hb, mb, m'', rfl, hhb, Header.bytes_length _ _ hhb, hmm',
+            ?_, ?_, Or.inl ⟨hd, ?_⟩⟩
+          rotate_left 2
+          exact List.append_nil _
+          simp
+      · exact absurd h3 (by simp)
+    · rename_i hd
+      obtain ⟨⟨ls, is1⟩, hm, hl3⟩ := bind_ok_inv _ _ _ hl2
+      cases hl3
+      simp only at h3
+      split at h3
+      · rename_i heq
+        cases heq
+        obtain ⟨hb, hhb, h4⟩ := bind_ok_inv _ _ _ h3
+        obtain ⟨⟨⟨mb, m''⟩, e0⟩, hmm, h5⟩ := bind_ok_inv _ _ _ h4
+        obtain ⟨hmm', rfl⟩ := catchErr_noErr _ _ _ _ (Match.marshalM_noErr _) hmm
+        simp only [hd, if_false] at h5
+        obtain ⟨⟨ib, is2, e⟩, hmli, h6⟩ := bind_ok_inv _ _ _ h5
+        obtain ⟨bss, hmi, rfl⟩ := marshalList_eq_mapM2 _ _ _ _ _ _ (fun x _ => Instruction.marshalM_noErr x) hmli
+        simp only at h6
+        split at h6
+        · exact absurd h6 (by simp)
+        · cases h6
+          refine ⟨_, _, _, _, cmd, _, _, _, _, _, _, _, _, _, is, _, hb, mb, m'', rfl, hhb, Header.bytes_length _ _ hhb, hmm',
+            ?_, ?_, Or.inr ⟨hd, ls, is1, bss, is2, hm, hmi, ?_⟩⟩
+          rotate_left 2
+          rfl
+          simp
+      · exact absurd h3 (by simp)
+  · exact absurd hl (by simp)
+
+/-- a match field reports at most 8 + 255 + 255 bytes (no uint16 wrap-around is possible in MatchField.Len()) -/
+theorem matchField_len_le (v : V) (l : UInt16) (v1 : V) (h : MatchField.lenM v = .ok (l, v1)) : l.toNat ≤ 518 := by
+  unfold MatchField.lenM at h
+  split at h
+  · rename_i c f hm ln eid val mask
+    obtain ⟨⟨lv, val'⟩, hv, h2⟩ := bind_ok_inv _ _ _ h
+    have b1 := C06.payload_len_le _ _ _ hv
+    have hn : (if eid = 0 then (4 : UInt16) else 8).toNat ≤ 8 := by split <;> decide
+    simp only at h2
+    split at h2
+    · cases h2
+      rw [UInt16.toNat_add]
+      have : (2:Nat) ^ 16 = 65536 := rfl
+      rw [this]; omega
+    · obtain ⟨⟨lm, mask'⟩, hmk, h3⟩ := bind_ok_inv _ _ _ h2
+      have b2 := C06.payload_len_le _ _ _ hmk
+      cases h3
+      simp only
+      rw [UInt16.toNat_add, UInt16.toNat_add]
+      have : (2:Nat) ^ 16 = 65536 := rfl
+      rw [this]; omega
+  · exact absurd h (by simp)
+
+/-- ActionSetField embeds its field intact: the encoding is the 4-byte action header, the COMPLETE encoding of the
+    match field, and zero padding up to the reported size — for every field (nothing is truncated: the size never
+    wraps) -/
+theorem actionSetField_embeds (v : V) (bs : Bytes) (v2 : V) (h2 : ActionSetField.marshalM v = .ok (bs, v2)) :
+    ∃ h f hb fb f', v = .obj "ActionSetField" [h, f] ∧ ActionHeader.bytes h = .ok hb ∧ hb.length = 4 ∧
+      MatchField.marshalM f = .ok (fb, f') ∧ bs = hb ++ fb ++ zeros (bs.length - (4 + fb.length)) := by
+  unfold ActionSetField.marshalM at h2
+  obtain ⟨⟨l, v'⟩, hl, h3⟩ := bind_ok_inv _ _ _ h2
+  unfold ActionSetField.lenM at hl
+  split at hl
+  · rename_i h f
+    obtain ⟨⟨fl, f1⟩, hfl, hl2⟩ := bind_ok_inv _ _ _ hl
+    have ef := MatchField.lenM_pure _ _ _ hfl
+    subst ef
+    cases hl2
+    simp only at h3
+    obtain ⟨hb, hhb, h4⟩ := bind_ok_inv _ _ _ h3
+    obtain ⟨⟨fb, f'⟩, hfm, h5⟩ := bind_ok_inv _ _ _ h4
+    obtain ⟨out, hfill, h6⟩ := bind_ok_inv _ _ _ h5
+    cases h6
+    have e1 := ActionHeader.bytes_length _ _ hhb
+    have e2 := C06.matchField_size _ _ _ _ _ hfl hfm
+    have e3 := matchField_len_le _ _ _ hfl
+    have e4 : (4 + fl : UInt16).toNat = 4 + fl.toNat := by
+      rw [UInt16.toNat_add]
+      have : (2:Nat) ^ 16 = 65536 := rfl
+      have h4 : (4 : UInt16).toNat = 4 := rfl
+      rw [this, h4]; omega
+    have e5 := round8_ge (4 + fl) (by omega)
+    have hx := fill_exact (round8 (4 + fl)).toNat [pCopyAdv hb 4, pCopy fb]
+      (by intro p hp; simp only [List.mem_cons, List.mem_nil_iff, or_false] at hp
+          rcases hp with rfl | rfl
+          · simp only [pCopyAdv, Piece.Tight]; omega
+          · simp only [pCopy, Piece.Tight])
+      (by simp only [piecesLen, pCopyAdv, pCopy, List.map_cons, List.map_nil, Piece.adv, List.sum_cons, List.sum_nil]; omega)
+    rw [hx] at hfill
+    cases hfill
+    refine ⟨h, _, hb, fb, f', rfl, hhb, e1, hfm, ?_⟩
+    simp only [piecesBytes, piecesLen, pCopyAdv, pCopy, List.map_cons, List.map_nil, Piece.bytes, Piece.adv, List.sum_cons,
+      List.sum_nil, List.flatten_cons, List.flatten_nil, List.append_nil, List.length_append, e1,
+      List.take_of_length_le (Nat.le_of_eq e1), Nat.sub_self, zeros, List.replicate_zero, List.length_replicate, Nat.add_zero]
+    congr 2
+    omega
+  · exact absurd hl (by simp)
+
+
+/-! ### the hypotheses of the conditional theorems are satisfiable -/
+
+/-- the hypothesis of `groupMod_size_partial` is satisfiable: a bucket with one output action is aligned -/
+example : BucketAligned (.obj "Bucket" [.num 0, .num 0, .num 0, .num 0, .bytes [], .list [ActionOutput.new 1]]) := by
+  intro l b1 bytes b2 h1 h2
+  have e1 : Bucket.lenM (.obj "Bucket" [.num 0, .num 0, .num 0, .num 0, .bytes [], .list [ActionOutput.new 1]]) =
+      .ok (32, .obj "Bucket" [.num 0, .num 0, .num 0, .num 0, .bytes [], .list [ActionOutput.new 1]]) := rfl
+  rw [e1] at h1
+  cases h1
+  have := bucket_size_exact _ _ _ _ _ e1 h2
+  have h3 := (action_size (ActionOutput.new 1))
+  obtain ⟨_, _, _, _, _, _, _, _, _, _, heq, hl, hm, rfl⟩ := bucket_embeds _ _ _ h2
+  cases heq
+  have e2 : mapM2 Action.lenM [ActionOutput.new 1] = .ok ([16], [ActionOutput.new 1]) := rfl
+  rw [e2] at hl
+  cases hl
+  have e3 : mapM2 Action.marshalM [ActionOutput.new 1] =
+      .ok ([[0, 0, 0, 16, 0, 0, 0, 1, 1, 0, 0, 0, 0, 0, 0, 0]], [ActionOutput.new 1]) := rfl
+  rw [e3] at hm
+  cases hm
+  rfl
+
+/-- the hypothesis of `packetIn_sizeMod` is satisfiable: a frame without payload -/
+example : LenIdem PEthernet.lenM PEthernet.new := by
+  intro l v1 h
+  have e : PEthernet.lenM PEthernet.new = .ok (14, PEthernet.new) := rfl
+  rw [e] at h
+  cases h
+  exact e
+
+/-- the hypotheses of `vendorHeader_size'` are satisfiable: a SetControllerID payload -/
+example : LenIdem anyLenM (.obj "ControllerID" [.bytes (zeros 6), .num 7]) ∧
+    ∀ l d', anyLenM (.obj "ControllerID" [.bytes (zeros 6), .num 7]) = .ok (l, d') → d' ≠ .nil := by
+  have e : anyLenM (.obj "ControllerID" [.bytes (zeros 6), .num 7]) = .ok (8, .obj "ControllerID" [.bytes (zeros 6), .num 7]) := rfl
+  constructor
+  · intro l v1 h
+    rw [e] at h
+    cases h
+    exact e
+  · intro l d' h
+    rw [e] at h
+    cases h
+    intro hc
+    cases hc
+
 
 end OFV.Props.C06b
